@@ -387,3 +387,18 @@ def check_match_record(cx: Cx, ob: Ob) -> None:
 @obligation("C05-D7", "state closure: all derived converter state is maintained by _index; query methods write no state", floor=5)
 def d7(cx: Cx, ob: Ob) -> None:
     state_closure(cx, ob)
+
+
+
+@obligation("C05-X1", "OWN (shared with C10): no function that takes a converter stores into, mutates or captures the Record objects of its input - a converter whose records are changed behind its back no longer matches its own lookup tables", floor=6)
+def x1(cx: Cx, ob: Ob) -> None:
+    from .c10 import check_no_aliasing
+
+    check_no_aliasing(cx, ob)
+
+
+@obligation("C05-X3", "no memoised derived values (cached_property / lru_cache) on Record, Reference or Converter objects, which are changed in place or copied with updates", floor=3)
+def x3(cx: Cx, ob: Ob) -> None:
+    from ..rules import cached_derivations
+
+    cached_derivations(cx, ob)
